@@ -294,6 +294,11 @@ Ownership(o, r) ==
                              r.cmds[i].c.t = "EffectCompletion" /\ r.cmds[i].c.p = e.p /\ ~r.cmds[i].c.ok,
                        "C14", "NeverReachesBackend",
                        <<"process", e.p, "is not the owner of", e.res[1], "backend", r.backend, "answer", r.cmds>>)
+              \* the rightful owner of an open resource is never refused: its operation reaches the backend
+              [] e.t = "EffectRequest" /\ e.res # <<>> /\ AHas(o.own, e.res[1]) /\ AGet(o.own, e.res[1]) = e.p
+                   /\ ~Gone(o, e.res[1]) ->
+                   Chk(o, r.backend # <<>>, "C14", "OwnerCanUse",
+                       <<"process", e.p, "owns resource", e.res[1], "but was answered", r.cmds>>)
               [] OTHER -> o
   IN FoldBackend(o1, r.backend)
 
